@@ -55,6 +55,7 @@ type Contract struct {
 	Unfold      []*Clause
 	Lemmas      []string // names of lemmas whose statements are assumed in this function's VCs
 	Hints       []*Clause
+	Locals      map[string]string // local variables the contract names, with their types: lets a renamed local be re-bound
 	OnAppend    []*Clause // obligations on every error value appended in the function (bound as e)
 }
 
@@ -97,7 +98,7 @@ type Specs struct {
 	Files     []string
 }
 
-var kwRe = regexp.MustCompile(`^(func|spec|lemma|axiom|datafact|requires|ensures|loop|pure|trusted|inline|byexec|transparent|frozen|onappend|trustedpost|allocs|assigns|reads|props|fresh|nosafety|uses|hint)\b`)
+var kwRe = regexp.MustCompile(`^(func|spec|lemma|axiom|datafact|requires|ensures|loop|pure|trusted|inline|byexec|transparent|frozen|onappend|trustedpost|allocs|assigns|reads|props|fresh|nosafety|uses|hint|local)\b`)
 
 func LoadSpecs(files []string) (*Specs, error) {
 	sp := &Specs{Contracts: map[string]*Contract{}, SpecFns: map[string]*SpecFn{}, Lemmas: map[string]*Lemma{}}
@@ -251,6 +252,15 @@ func (sp *Specs) loadFile(path string) error {
 				cur.NoSafety = true
 			case "props":
 				cur.Props = append(cur.Props, strings.Fields(strings.ReplaceAll(rest, ",", " "))...)
+			case "local":
+				f := strings.Fields(rest)
+				if len(f) < 2 {
+					return fail("local <name> <type>")
+				}
+				if cur.Locals == nil {
+					cur.Locals = map[string]string{}
+				}
+				cur.Locals[f[0]] = strings.Join(f[1:], " ")
 			case "uses":
 				cur.Lemmas = append(cur.Lemmas, strings.Fields(strings.ReplaceAll(rest, ",", " "))...)
 			case "reads":
